@@ -88,7 +88,7 @@ CHECKS = {
              "argument and result types, multiple results, allocas in caller and callee incl. the frame-first shape c2mir emits, early "
              "returns, recursion, memory operands that simplification splits) run by MIR_interp, gen -O0 and gen -O2 on three builds of the "
              "library whose inlining thresholds differ; all are compared with the reference model, which never inlines or simplifies.",
-        note="Trusted: reference model. The always-inline build bounds caller growth (6x / 1500 insns) to keep nested call chains finite.",
+        note="Trusted: reference model. The always-inline build bounds caller growth (5x / 1000 insns) to keep nested call chains finite.",
         design="3/C04"),
     "C17": dict(
         technique=TECH + "checking allocator + checking code allocator passed to MIR_init2 (ledger of every block and code region, poisoned "
